@@ -21,7 +21,7 @@ THR0 = 5000          # set-compression thresholds are THR0 + position: frames st
 VERSIONS = {'play': [757, 340, 47, 498], 'login': [757, 404, 578]}
 
 
-def execute(row, seed, version=None):
+def execute(row, seed, version=None, share=False):
     from minecraft.networking.packets import Packet, AbstractKeepAlivePacket, clientbound as cb, serverbound as sb
     from minecraft.exceptions import IgnorePacket
     st = row['st']
@@ -133,6 +133,7 @@ def execute(row, seed, version=None):
         c.connect()
         run.settle()
         regs = []
+        shared = {}
         for name, early, outgoing in (('EI', True, False), ('OI', False, False), ('EO', True, True), ('OO', False, True)):
             for i, l in enumerate(row[name], 1):
                 regs.append((name, i, l, early, outgoing))
@@ -155,11 +156,15 @@ def execute(row, seed, version=None):
             for f in l['f']:
                 types += list(cls[f])
 
-            def cbk(pkt, name=name, i=i, l=l):
+            def cbk(pkt, name=name, i=(0 if share else i), l=l):
                 kd, occ = kind_occ(pkt)
                 log.append([name, i, kd, occ, 1 if (name in ('EI', 'OI') and effect_visible(kd, occ)) else 0])
                 if l['ig']:
                     raise IgnorePacket
+            if share:
+                # one and the same callable for every registration of this list with this behaviour: each registration
+                # still is a listener of its own, at its own place in the order
+                cbk = shared.setdefault((name, l['ig']), cbk)
             if j % 2:
                 c.register_packet_listener(cbk, *types, early=early, outgoing=outgoing)
             else:                       # the decorator spelling of the same registration
@@ -258,7 +263,8 @@ def run(chk):
             kinds = kinds + ['C']
         row = {'EI': lst(3), 'OI': lst(3), 'EO': lst(3), 'OO': lst(3), 'st': st, 'batch': rng.random() < 0.5, 'forced': True,
                'hist': [rng.choice(kinds) for _ in range(rng.randint(1, 6))] + ['D']}
-        run_, log, wire, closed, version = execute(row, chk.seed * 31337 + j)
+        row['shared'] = (j % 3 == 2)
+        run_, log, wire, closed, version = execute(row, chk.seed * 31337 + j, share=row['shared'])
         chk.traces += 1
         chk.case(('big', j))
         o = dict(row)
